@@ -32,7 +32,7 @@ PROPS = {
     "C09": dict(targets=["Properties_C09.vo"], families=OUTPUT_FAMILIES, codes=[901]),
     "C11": dict(targets=["Properties_C11.vo"], families=[("term", 0.5), ("term_modes", 1.0), ("term_wild", 0.2)], codes=[1101]),
     "C13": dict(targets=["Properties_C13.vo"], families=OUTPUT_FAMILIES, codes=[1301]),
-    "C16": dict(targets=["Properties_C16.vo"], families=[("canvas", 1.0)], codes=[], extra="c16"),
+    "C16": dict(targets=["Properties_C16.vo"], families=[("canvas", 1.0), ("canvas_alias", 0.5)], codes=[], extra="c16"),
     "C15": dict(targets=["Properties_C15.vo"], families=[("values", 1.0)], codes=[], extra="c15"),
     "C17": dict(targets=["Properties_C17.vo"], families=[("term", 1.0), ("term_wild", 0.3), ("strings", 0.7)], codes=[1701], extra="c17"),
     "C05": dict(targets=["Properties_C05.vo"], families=[("items", 1.0), ("garbage", 0.3), ("keyseq", 0.3)], codes=[], extra="c05", expand=True),
@@ -40,9 +40,9 @@ PROPS = {
     "C07": dict(targets=["Properties_C07.vo"], families=[("garbage", 1.0), ("chunks", 0.5), ("markup_wild", 1.0)], codes=[], extra="c07", expand=True),
     "C20": dict(targets=["Properties_C20.vo"], families=[("chunks", 1.0), ("keyseq", 0.5), ("items", 0.5), ("garbage", 0.5)], codes=[], extra="c20", expand=True),
     "C10": dict(targets=["Properties_C10.vo"], families=[("markup", 1.0), ("markup_respell", 0.5), ("markup_plain", 0.2), ("markup_wild", 0.3)], codes=[], extra="c10"),
-    "C12": dict(targets=["Properties_C12.vo"], families=[], codes=[], special="c12"),
+    "C12": dict(targets=["Properties_C12.vo"], families=[("canvas_alias", 0.5)], codes=[], special="c12", extra="c16"),
     "C14": dict(targets=["Properties_C14.vo"], families=[], codes=[], special="c14"),
-    "C18": dict(targets=["Properties_C18.vo"], families=[("term", 0.5)], codes=[101, 102]),
+    "C18": dict(targets=["Properties_C18.vo"], families=[("charset_sweep", 1.0), ("term", 0.5)], codes=[101, 102], extra="c18"),
     "C19": dict(targets=["Properties_C19.vo"], families=[("term", 0.5)], codes=[102]),
 }
 
@@ -54,6 +54,8 @@ def gen_family(family, seed, n):
     """-> list of script lines (many cases)"""
     r = gen.Rng(gen.family_seed(seed, family))
     lines = []
+    if family == "charset_sweep":
+        return gen.gen_charset_sweep()
     for i in range(n):
         cid = i + 1
         if family == "term":
@@ -68,6 +70,8 @@ def gen_family(family, seed, n):
             lines += gen.gen_screen_case(r, cid, wild=True)
         elif family == "canvas":
             lines += gen.gen_canvas_case(r, cid)
+        elif family == "canvas_alias":
+            lines += gen.gen_canvas_alias_case(r, cid)
         elif family == "values":
             lines += gen.gen_value_case(r, cid)
         elif family == "items":
@@ -95,71 +99,81 @@ def gen_family(family, seed, n):
 
 # ---- property-specific oracles over the IMPLEMENTATION's output ----------------
 def oracle_c16(impl_lines):
-    """C16 on the real canvas: size*count, row-major addressing, region order,
-    retention across resize."""
+    """C16 on the real canvas (several canvases per case): size*count, row-major
+    addressing, region order, retention across resize, and no effect of an
+    operation on any canvas other than the one it addresses (copies are values)"""
     fails = []
     cases, order = vc.split_cases(impl_lines)
     for cid in order:
-        grid, w, h = None, 0, 0
-        cur = None
-        dump = []
-        region = None
+        cv = {}      # id -> dict(w, h, grid{(x,y): elem})
+        dump, region, pend = [], None, None
         lines = cases[cid] + ["> END"]
-        pend = None
         for l in lines:
             if l.startswith("> "):
-                # close previous op
-                if pend and pend[0] == "dump":
-                    (kw, kh, cnt) = pend[1]
-                    if cnt != kw * kh or len(dump) != cnt:
-                        fails.append((cid, "canvas %dx%d exposes %d cells in begin()..end()" % (kw, kh, cnt)))
-                    if grid is not None and (kw, kh) == (w, h):
-                        exp = [grid.get((i % w, i // w), None) for i in range(w * h)] if w else []
+                if pend and pend[0] == "dump" and pend[2] is not None:
+                    c = cv[pend[1]]
+                    (kw, kh, cnt) = pend[2]
+                    w, h = c["w"], c["h"]
+                    if (kw, kh) != (w, h):
+                        fails.append((cid, "canvas %s: size() reports %dx%d, expected %dx%d" % (pend[1], kw, kh, w, h)))
+                    elif cnt != kw * kh or len(dump) != cnt:
+                        fails.append((cid, "canvas %s of %dx%d exposes %d cells in begin()..end()" % (pend[1], kw, kh, cnt)))
+                    else:
                         for i, e in enumerate(dump):
                             x, y = (i % w, i // w)
-                            want = grid.get((x, y), DEFAULT)
+                            want = c["grid"].get((x, y), DEFAULT)
                             if e != want:
-                                fails.append((cid, "cell (%d,%d) = begin()[%d] holds %s, expected %s" % (x, y, i, e, want)))
+                                fails.append((cid, "canvas %s: cell (%d,%d) = begin()[%d] holds %s, expected %s" % (pend[1], x, y, i, e, want)))
                                 break
                 if pend and pend[0] == "region":
-                    (x0, y0, rw, rh) = pend[1]
-                    want = [(x, y, grid.get((x, y), DEFAULT)) for y in range(y0, y0 + rh) for x in range(x0, x0 + rw)]
+                    c = cv[pend[1]]
+                    (x0, y0, rw, rh) = pend[2]
+                    want = [(x, y, c["grid"].get((x, y), DEFAULT)) for y in range(y0, y0 + rh) for x in range(x0, x0 + rw)]
                     if region != want:
-                        fails.append((cid, "region (%d,%d,%d,%d) visited %d cells, expected %d in row-major order with matching contents" % (x0, y0, rw, rh, len(region), len(want))))
+                        fails.append((cid, "canvas %s: region (%d,%d,%d,%d) visited %d cells, expected %d in row-major order with matching contents" % (pend[1], x0, y0, rw, rh, len(region), len(want))))
                 pend = None
                 t = l[2:].split()
                 if len(t) >= 3 and t[0] == "K":
+                    k = t[1]
                     if t[2] == "new":
-                        w, h = int(t[3]), int(t[4])
-                        grid = {}
+                        cv[k] = {"w": int(t[3]), "h": int(t[4]), "grid": {}}
+                    elif t[2] == "copy":
+                        src = cv[t[3]]
+                        cv[k] = {"w": src["w"], "h": src["h"], "grid": dict(src["grid"])}
                     elif t[2] == "set":
-                        grid[(int(t[3]), int(t[4]))] = " ".join(t[5:])
+                        cv[k]["grid"][(int(t[3]), int(t[4]))] = " ".join(t[5:])
+                    elif t[2] == "fill":
+                        e = " ".join(t[3:])
+                        cv[k]["grid"] = {(x, y): e for x in range(cv[k]["w"]) for y in range(cv[k]["h"])}
+                    elif t[2] == "iterset":
+                        i = int(t[3])
+                        cv[k]["grid"][(i % cv[k]["w"], i // cv[k]["w"])] = " ".join(t[4:])
                     elif t[2] == "resize":
                         nw, nh = int(t[3]), int(t[4])
-                        grid = {(x, y): e for (x, y), e in grid.items() if x < nw and y < nh and x < w and y < h}
-                        w, h = nw, nh
+                        c = cv[k]
+                        c["grid"] = {(x, y): e for (x, y), e in c["grid"].items() if x < nw and y < nh and x < c["w"] and y < c["h"]}
+                        c["w"], c["h"] = nw, nh
                     elif t[2] == "dump":
                         dump = []
-                        pend = ["dump", None]
+                        pend = ["dump", k, None]
                     elif t[2] == "region":
                         region = []
-                        pend = ["region", tuple(int(x) for x in t[3:7])]
+                        pend = ["region", k, tuple(int(x) for x in t[3:7])]
                     elif t[2] == "get":
-                        pend = ["get", (int(t[3]), int(t[4]))]
-            elif l.startswith("KSZ ") and pend:
+                        pend = ["get", k, (int(t[3]), int(t[4]))]
+            elif l.startswith("KSZ ") and pend and pend[0] == "dump":
                 a = l.split()
-                pend[1] = (int(a[1]), int(a[2]), int(a[3]))
-                if (int(a[1]), int(a[2])) != (w, h):
-                    fails.append((cid, "size() reports %sx%s, expected %dx%d" % (a[1], a[2], w, h)))
+                pend[2] = (int(a[1]), int(a[2]), int(a[3]))
             elif l.startswith("KE "):
                 dump.append(l[3:])
             elif l.startswith("KR ") and region is not None:
                 a = l.split()
                 region.append((int(a[1]), int(a[2]), " ".join(a[3:])))
             elif l.startswith("KG ") and pend and pend[0] == "get":
-                x, y = pend[1]
-                if l[3:] != grid.get((x, y), DEFAULT):
-                    fails.append((cid, "canvas[%d][%d] holds %s, expected %s" % (x, y, l[3:], grid.get((x, y), DEFAULT))))
+                x, y = pend[2]
+                want = cv[pend[1]]["grid"].get((x, y), DEFAULT)
+                if l[3:] != want:
+                    fails.append((cid, "canvas %s: canvas[%d][%d] holds %s, expected %s" % (pend[1], x, y, l[3:], want)))
     return fails
 
 
@@ -345,6 +359,35 @@ def oracle_c20(impl_lines):
     return fails
 
 
+def oracle_c18(impl_lines):
+    """designators against the VT/xterm table: what each candidate looks up to
+    (via the markup decoder) and what is sent to designate each set"""
+    fails = []
+    cases, order = vc.split_cases(impl_lines)
+    for cid in order:
+        wantcs, wantd, ws = None, None, []
+        src = ""
+        for l in cases[cid]:
+            if l.startswith("> # WANTCS "):
+                wantcs = int(l.split()[3])
+            elif l.startswith("> # WANTDESIG "):
+                wantd = l.split()[3]
+            elif l.startswith("> M ete"):
+                src = l
+            elif l.startswith("E ") and wantcs is not None:
+                got = int(l.split()[1])
+                # the glyph 'X' follows the directive; an unknown designator leaves us_ascii (5);
+                # a two-byte form consumes the X only when '%' is taken as the extender
+                if got != wantcs:
+                    fails.append((cid, "designator in %s selects character set %d, the standard says %d" % (src[2:], got, wantcs)))
+            elif l.startswith("W ") and wantd is not None:
+                ws.append(l[2:].strip())
+        if wantd is not None and len(ws) >= 2 and wantd != "42":
+            if ("1b28" + wantd) not in ws[1]:
+                fails.append((cid, "designating the set wrote %s, which does not contain ESC ( %s" % (ws[1], wantd)))
+    return fails
+
+
 def oracle_c17(impl_lines):
     """bytes -> attributed string -> to_string is the identity; to_string
     distributes over concatenation"""
@@ -401,7 +444,7 @@ def oracle_c07(impl_lines):
     return oracle_c05(impl_lines)
 
 
-EXTRA = {"c16": oracle_c16, "c15": oracle_c15, "c05": oracle_c05, "c06": oracle_c06, "c20": oracle_c20, "c07": oracle_c07, "c10": oracle_c10, "c17": oracle_c17}
+EXTRA = {"c16": oracle_c16, "c15": oracle_c15, "c05": oracle_c05, "c06": oracle_c06, "c20": oracle_c20, "c07": oracle_c07, "c10": oracle_c10, "c17": oracle_c17, "c18": oracle_c18}
 
 
 def known_for(pid):
@@ -473,6 +516,13 @@ def run_check(pid, tier, seed, replay=None):
         if t not in proof_failed:
             discharged += len(re.findall(r"^\s*(Theorem|Corollary)\b", open(os.path.join(VERIF, "coq", t[:-1])).read(), flags=re.M))
 
+    chk = None
+    if tier == "thorough" and not proof_failed:
+        chk = vc.coqchk(P["targets"])
+        if not chk["ok"]:
+            notes.append("coqchk did not accept the compiled files: " + chk["summary"][:300])
+            proof_failed = list(P["targets"])
+
     # 2. builds -------------------------------------------------------------------
     exe, secs, err = vbuild.build_impl("asan")
     if err:
@@ -538,6 +588,19 @@ def run_check(pid, tier, seed, replay=None):
         return res
 
     sp_stats = None
+    if replay:
+        rl = [l for l in open(replay).read().split("\n") if l.strip() and not l.startswith("#")]
+        if rl:
+            do_script("replay", seed, rl, "replay")
+        for (fam, sd, f, cl) in fails:
+            vc.log("replay: property %s FAILS on this input: %s" % (pid, f.get("why") or CLAUSE.get(f["code"], "")))
+        for m in mismatches[:3]:
+            vc.log("replay: model and implementation differ: case %s line %s: impl [%s] model [%s]" % (m[2], m[3], m[4], m[5]))
+        if not fails and not mismatches:
+            vc.log("replay: the property holds on this input and the implementation agrees with the model")
+        if fails:
+            vc.log("VIOLATION property=%s replay=%s" % (pid, replay))
+        return 1 if fails else 0
     if P.get("special"):
         runner = special.run_c12 if P["special"] == "c12" else special.run_c14
         sp_fails, sp_stats = runner(pid, tier, seed, ctx, P)
@@ -654,6 +717,7 @@ def run_check(pid, tier, seed, replay=None):
         "correspondence_mismatches": len(mismatches), "oracle_failures": len(real_fails),
         "known_findings_seen": sorted(known_hits.keys()),
         "proof_targets_failed": proof_failed, "notes": notes, "special": sp_stats,
+        "coqchk": chk,
         "exhaustive": False,
     }
     assumptions = ["glyphs displayable, one cell per glyph, declared size = actual size (DESIGN.md section 8)",
